@@ -63,7 +63,7 @@ func NewRolloutScn(c *vs.Case, o RolloutOpts) *Scn {
 	}
 	n := 1 + c.Int(o.MaxChildren)
 	tpl := ChildTpl{Resource: "widgets", Labels: map[string]string{"app": "p1"},
-		Fields: map[string]any{"spec": map[string]any{"v": "$p:spec.template.v", "mode": "$p:spec.other"}}}
+		Fields: map[string]any{"spec": map[string]any{"v": "$p:spec.template.v", "mode": "$p:spec.other", "extra": "$p:spec.template.extra"}}}
 	replicas := int64(0)
 	if o.Scale && c.Bool() {
 		tpl.Replicated = true
@@ -115,7 +115,7 @@ func NewRolloutScn(c *vs.Case, o RolloutOpts) *Scn {
 		tpl2.Resource = "gadgets"
 		tpl2.Labels = map[string]string{"app": "p1"}
 		tpl2.Names = append([]string(nil), s.Prog.Children[0].Names...)
-		tpl2.Fields = map[string]any{"spec": map[string]any{"v": "$p:spec.template.v", "mode": "$p:spec.other"}}
+		tpl2.Fields = map[string]any{"spec": map[string]any{"v": "$p:spec.template.v", "mode": "$p:spec.other", "extra": "$p:spec.template.extra"}}
 		s.Prog.Children = append(s.Prog.Children, tpl2)
 		c.Class("two-rolling-kinds")
 	}
